@@ -269,12 +269,13 @@ def _case(draw):
             res = draw(st.sampled_from([-2, -2, 0, 2]))
             cnt = draw(st.integers(3, 10))
             keepers = [x for x in reachable() if S.kind[x] in ("arr", "lst")]
-            first_stk = None
-            with_root = draw(st.booleans())
+            cl_stk = []
+            with_root = draw(st.integers(0, 2)) > 0
+            nroot = 2 if cnt >= 5 else 1
             for j in range(cnt):
                 h = fresh()
-                if with_root and j == cnt - 1:
-                    # a root-registered holder late in the cluster (so it sits displaced), the only path to a child
+                if with_root and j >= cnt - nroot:
+                    # root-registered holders late in the cluster (so they sit displaced), each the only path to a child
                     S.new(h, "nodea", "root")
                     ops.append(["new", h, "nodea", "root", res])
                     c = fresh()
@@ -285,11 +286,11 @@ def _case(draw):
                     continue
                 S.new(h, "nodea", "m")
                 ops.append(["new", h, "nodea", "m", res])
-                if j == (cnt - 2 if with_root else 0) and len(S.stk) < 14:       # the member allocated right before the root holder
+                if (j in (cnt - nroot - 2, cnt - nroot - 1) if with_root else j == 0) and len(S.stk) < 14:       # the members allocated right before the root holders
                     slot = min(set(range(16)) - set(S.stk))
                     S.stk[slot] = h
                     ops.append(["stk", slot, h])
-                    first_stk = (slot, h)
+                    cl_stk.append((slot, h))
                 elif draw(st.booleans()):
                     if keepers:
                         store(keepers[0], h)
@@ -297,12 +298,13 @@ def _case(draw):
                         slot = min(set(range(16)) - set(S.stk))
                         S.stk[slot] = h
                         ops.append(["stk", slot, h])
-            if first_stk and draw(st.booleans()) and S.indeg(first_stk[1]) == 0:
-                slot, h = first_stk
-                del S.stk[slot]
-                S.dead.add(h)
-                ops.append(["unstk", slot])
-                ops.append(["del", h])
+            for slot, h in cl_stk:
+                # explicit deletions inside the cluster, before the next collection (entries behind them shift back)
+                if draw(st.integers(0, 3)) > 0 and S.indeg(h) == 0:
+                    del S.stk[slot]
+                    S.dead.add(h)
+                    ops.append(["unstk", slot])
+                    ops.append(["del", h])
             ops.append(["collect"])
             ops.append(["check"])
             ops.append(["collect"])
